@@ -153,6 +153,20 @@ CHECKS = {
         "monotone in [0,1] ending at 1, sample types never regress, scheduled times monotone and weight*C/T apart, ramp-up delay.",
         "Trusted: as C04. Poisson pacing compared with the same seeded source (single client) or for monotonicity.",
     ),
+    "C01": (
+        "model_checking",
+        "stateless deviation-bounded exploration (CHESS-style iterative bounding) of complete simulated races: real actors, driver, "
+        "allocator, workers, executors and client on a simulated Thespian transport, virtual clock and baton-scheduled executor threads",
+        "DESIGN.md §4 C01",
+        "9 schedule shapes (sequential, parallel, completed-by task/any, over-committed, time-based, idle clients, completing task on a "
+        "shared worker) x 4 host/core layouts x service-time profiles x clock offsets; every order of message deliveries (FIFO per pair), "
+        "due wake-ups, executor-thread steps, time advances (message delays) and handler preemptions within 1 deviation of the default "
+        "schedule (2 on completed-by shapes; thorough: 2 everywhere it matters). Oracle on the request log and race-control messages only: "
+        "no request of element k+1 before every request of element k completed; exact per-client request counts; exactly one completion "
+        "after the last response, one TaskFinished per step, no failure; completed-by ends siblings only after the named task; liveness.",
+        "Trusted: mc/actorsim.py (transport semantics, 350 lines), mc/vloop.py, mc/fakees.py, mc/racesim.py (stubs for config/track loading). "
+        "Real TCP transport and OS-level preemption between sync points are outside the model.",
+    ),
 }
 
 NOT_YET = {}
